@@ -454,3 +454,60 @@ add('c16-uses-validates-then-unpacks', ['C08', 'C16'], 'fire', 'Recipe.uses',
 add('c09-destinations-checked-then-looped', ['C09'], 'fire', 'Recipe.get_substance_used',
     'elif isinstance(destinations, Iterable):', 'elif isinstance(destinations, Iterable) and all((isinstance(c, (Container, Plate)) for c in destinations)):',
     'the type check consumes a one-shot iterable of destinations')
+
+# ------------------------------------------------------------------------------------------------ rules added after round 4
+add('c06-default-argument-reads-config', ['C06', 'C02', 'C15', 'C18'], 'fire', 'Substance.solid',
+    'def solid(name: str, mol_weight: float, molecule=None) -> Substance:',
+    'def solid(name: str, mol_weight: float, molecule=None, density: float=config.default_solid_density) -> Substance:',
+    'the configured default density is fixed at import')
+add('c18-rstrip-as-suffix-strip', ['C18', 'C02', 'C06', 'C14'], 'fire', 'Unit.convert_to_storage',
+    'Unit.convert_prefix_to_multiplier(config.moles_storage_unit[:-3])',
+    "Unit.convert_prefix_to_multiplier(config.moles_storage_unit.rstrip('mol'))",
+    "rstrip('mol') also strips the prefix 'm'", count=99)
+add('c16-stage-start-before-validation', ['C15', 'C16', 'C09'], 'fire', 'Recipe.start_stage',
+    "    if name in self.stages:\n        raise ValueError('Stage name already exists.')",
+    "    self.current_stage_start = len(self.steps)\n    if name in self.stages:\n        raise ValueError('Stage name already exists.')",
+    'a refused start_stage has already moved the start of the open stage')
+add('c15-flows-share-one-array', ['C15'], 'fire', 'Recipe.get_container_flows',
+    "flows = {'in': np.zeros(container.wells.shape), 'out': np.zeros(container.wells.shape)}",
+    "flows = dict.fromkeys(flows, np.zeros(container.wells.shape))",
+    'in and out are one array')
+add('c15-flows-comprehension', ['C15'], 'silent', 'Recipe.get_container_flows',
+    "flows = {'in': np.zeros(container.wells.shape), 'out': np.zeros(container.wells.shape)}",
+    "flows = {key: np.zeros(container.wells.shape) for key in flows}",
+    'one array per key, built by a comprehension')
+add('c10-precision-zero-falls-through', ['C10', 'C19'], 'fire', 'PlateSlicer.get_volumes',
+    "precision = config.precisions[unit] if unit in config.precisions else config.precisions['default']",
+    "precision = config.precisions.get(unit) or config.precisions['default']",
+    'a configured precision of 0 digits is taken for missing')
+add('c03-well-capacity-in-display-unit', ['C03', 'C14', 'C18'], 'fire', 'Plate.__init__',
+    "max_volume=f'{max_volume_per_well} L'", "max_volume=f'{self.max_volume_per_well} {config.volume_display_unit}'",
+    'the stored capacity is labelled with the display unit')
+add('c13-row-labels-least-significant-first', ['C13'], 'fire', 'Plate.__init__',
+    "self.row_names.append(''.join(reversed(result)))", "self.row_names.append(''.join(result))",
+    "row 28 is labelled 'BA'")
+add('c13-row-labels-prepended', ['C13'], 'silent', 'Plate.__init__',
+    "result.append(chr(ord('A') + row_num % 26))\n                row_num //= 26\n            self.row_names.append(''.join(reversed(result)))",
+    "result.insert(0, chr(ord('A') + row_num % 26))\n                row_num //= 26\n            self.row_names.append(''.join(result))",
+    'letters prepended instead of reversed')
+add('c18-isclose-on-stored-volume', ['C18', 'C03'], 'fire', 'Container._transfer',
+    'if to.volume > to.max_volume:', 'if to.volume > to.max_volume and (not numpy.isclose(to.volume, to.max_volume)):',
+    'an absolute tolerance on a value in storage units')
+add('c05-cached-row-scaled-in-place', ['C05', 'C14'], 'fire', 'Container.create_solution',
+    'a[index] = c * bottom - numpy.roll(identity, i) * convert_one(substance, numerator)',
+    'bottom *= c\n            a[index] = bottom - numpy.roll(identity, i) * convert_one(substance, numerator)',
+    'the cached denominator row is scaled for every later solute')
+add('c04-contents-defaultdict', ['C04'], 'fire', 'Container.__init__',
+    'self.contents: Dict[Substance, float] = {}', 'self.contents: Dict[Substance, float] = defaultdict(float)',
+    'reads of absent substances insert them')
+add('c04-convert-from-writes-substance', ['C04'], 'fire', 'Unit.convert_from',
+    "    if not isinstance(substance, Substance):", "    substance.density = substance.density\n    if not isinstance(substance, Substance):",
+    'a conversion assigns to its Substance argument')
+add('c01-apply-through-get-and-set', ['C01', 'C02', 'C07'], 'fire', 'Slicer.apply',
+    "    if isinstance(self.slices, list):", "    return self.set(numpy.vectorize(func, cache=True)(self.get()))\n    if isinstance(self.slices, list):",
+    'every entry is read before any is written; nothing is stored directly', module=S)
+add('c02-accumulator-flattened', ['C01', 'C02'], 'fire', 'PlateSlicer._transfer',
+    'to_array = to.get()', 'to_array = to.get().flatten()', 'the receiving well is updated in a copy')
+add('c07-list-selection-sorted', ['C07', 'C13'], 'fire', 'Slicer.__init__',
+    "    if isinstance(item, str):\n        if ':' in item:", "    if isinstance(item, list):\n        item = sorted(item)\n    if isinstance(item, str):\n        if ':' in item:",
+    'the order of a list selection is lost', module=S)
